@@ -73,8 +73,58 @@ static std::string oneMessage(ParserT& parser, const std::string& msg, const std
     return outs;
 }
 
+// like oneMessage, but reports the largest capacity the message body ever had (memory reserved for the body)
+template <typename ParserT, typename BodyF>
+static std::string memMessage(ParserT& parser, const std::string& msg, const std::vector<size_t>& cuts, BodyF body)
+{
+    size_t pos = 0, maxcap = 0; std::string last = "A";
+    std::vector<size_t> ends(cuts); ends.push_back(msg.size());
+    for (size_t i = 0; i < ends.size(); ++i) {
+        size_t e = ends[i]; if (e > msg.size()) e = msg.size(); if (e < pos) e = pos;
+        ExactBuf seg(msg.substr(pos, e - pos)); pos = e;
+        try {
+            if (!parser.feed(seg.p, seg.n)) { last = "F413"; break; }
+            auto st = parser.parse();
+            maxcap = std::max(maxcap, body().capacity());
+            if (st == Private::State::Done) { last = "D"; break; }
+        } catch (const HttpError& he) { maxcap = std::max(maxcap, body().capacity()); last = "E" + std::to_string(he.code()); break; }
+        catch (const std::exception& ex) { (void)ex; maxcap = std::max(maxcap, body().capacity()); last = "E500"; break; }
+    }
+    return "cap=" + std::to_string(maxcap) + " last=" + last;
+}
+
 void registerParser(std::map<std::string, Op>& ops)
 {
+    ops["pmem"] = [](const std::vector<std::string>& w) -> std::string {
+        if (w.size() != 5) return "bad-op";
+        std::string msg; if (!fromHex(w[3], msg)) return "bad-op";
+        std::vector<size_t> cuts; parseCuts(w[4], cuts);
+        size_t mx = strtoull(w[2].c_str(), nullptr, 10);
+        if (w[1] == "req") { RequestParser p(mx); return memMessage(p, msg, cuts, [&]() -> const std::string& { return static_cast<const Request&>(p.request).body(); }); }
+        if (w[1] == "resp") { ResponseParser p(mx); return memMessage(p, msg, cuts, [&]() -> const std::string& { return static_cast<const Response&>(p.response).body(); }); }
+        return "bad-op";
+    };
+    // hlookup <hex request> <hexname,hexname,...>: retrieve headers of the parsed message under the given spellings
+    ops["hlookup"] = [](const std::vector<std::string>& w) -> std::string {
+        if (w.size() != 3) return "bad-op";
+        std::string msg; if (!fromHex(w[1], msg)) return "bad-op";
+        RequestParser p(65536);
+        try {
+            ExactBuf seg(msg);
+            if (!p.feed(seg.p, seg.n)) return "F413";
+            if (p.parse() != Private::State::Done) return "A";
+        } catch (const HttpError& he) { return "E" + std::to_string(he.code()); }
+        catch (const std::exception& ex) { (void)ex; return "E500"; }
+        std::string out = "ok";
+        std::stringstream ss(w[2]); std::string it;
+        while (std::getline(ss, it, ',')) {
+            std::string name; if (!fromHex(it, name)) return "bad-op";
+            auto raw = p.request.headers().tryGetRaw(name);
+            bool typed = p.request.headers().has(name);
+            out += " " + (raw.has_value() ? toHex(raw->value()) : std::string("~")) + (typed ? "/T" : "/-");
+        }
+        return out;
+    };
     ops["parse"] = [](const std::vector<std::string>& w) -> std::string {
         if (w.size() != 5) return "bad-op";
         std::string msg; if (!fromHex(w[3], msg)) return "bad-op";
